@@ -248,7 +248,7 @@ pub fn def() -> PropDef {
         assumptions: &["the reference store is built by Store::new + add in a freshly spawned thread (fresh Lang, fresh thread-local scratch)"],
         spaces: vec![
             Space { name: "small", decode: decode_small, plan: |t| match t { Tier::Quick => Plan::Enumerate(enumerate_small(5), true, "all op sequences of length <= 5 ending in a search, 9-letter alphabet x 7 languages"), Tier::Thorough => Plan::Enumerate(enumerate_small(6), true, "all op sequences of length <= 6 ending in a search, 9-letter alphabet x 7 languages") } },
-            Space { name: "random", decode: decode_random, plan: |t| Plan::Random(t.n(25_000, 800_000)) },
+            Space { name: "random", decode: decode_random, plan: |t| Plan::Random(t.n(60_000, 1_200_000)) },
         ],
         differential: false,
     }
